@@ -264,7 +264,7 @@ def render_base(rng, base, names, virtual=0):
                         opened.add(r)
                     s += (SYM[o] if first else '') + (str(r) if r < 10 else '%%%d' % r)
             if maybe_virtual():
-                s += '(.[#V])' if rng.random() < 0.5 else '.([#V])'
+                s += '.([#V])'           # the bond symbol stands in front of the parenthesis
             kids = tree[u]
             for i, v in enumerate(kids):
                 o = base.edges[u, v]['order']
